@@ -252,7 +252,18 @@ func (t *Tools) Build(c *Case) (*BuildResult, error) {
 	c.Binary = filepath.Join(c.Dir, "case.test")
 	cmd := exec.Command("go", "test", "-c", "-vet=off", "-o", c.Binary, ".")
 	cmd.Dir = c.Dir
-	cmd.Env = GoEnv()
+	env, release := caseGoEnv()
+	defer release()
+	cmd.Env = env
+	if lf := os.Getenv("VERIF_BUILD_TIMING"); lf != "" {
+		st := time.Now()
+		defer func() {
+			if f, err := os.OpenFile(lf, os.O_APPEND|os.O_CREATE|os.O_WRONLY, 0o644); err == nil {
+				fmt.Fprintf(f, "%d %s %.1fs\n", os.Getpid(), filepath.Base(c.Dir), time.Since(st).Seconds())
+				f.Close()
+			}
+		}()
+	}
 	var out bytes.Buffer
 	cmd.Stdout, cmd.Stderr = &out, &out
 	if err := cmd.Start(); err != nil {
@@ -332,7 +343,9 @@ func (t *Tools) FuzzCase(c *Case, specPath, fuzzOut string, fuzztime time.Durati
 	}
 	cmd := exec.Command("go", args...)
 	cmd.Dir = c.Dir
-	cmd.Env = GoEnv("VERIF_SPEC="+specPath, "VERIF_FUZZ_OUT="+fuzzOut)
+	env, release := caseGoEnv("VERIF_SPEC="+specPath, "VERIF_FUZZ_OUT="+fuzzOut)
+	defer release()
+	cmd.Env = env
 	var out bytes.Buffer
 	cmd.Stdout, cmd.Stderr = &out, &out
 	if err := cmd.Start(); err != nil {
